@@ -139,6 +139,18 @@ pub mod proofs {
         assert!(same(out1[0][i], if i < 2 { r0[i] } else { in1[0][i - 2] }));
     }
 
+    /// no input at all: the empty sum is silence in EVERY output buffer (Sum and SumBuffers), whatever the buffers held before
+    #[kani::proof] #[kani::unwind(66)] #[kani::solver(kissat)]
+    pub fn c16_sum_nodes_no_input_2out() {
+        let mut out = [any_buffer(), any_buffer()];
+        let i = idx();
+        SumBuffers.process(&[], &mut out);
+        assert!(same(out[0][i], 0.0) && same(out[1][i], 0.0), "P: SumBuffers without inputs writes silence to every output");
+        let mut out2 = [any_buffer(), any_buffer()];
+        Sum.process(&[], &mut out2);
+        assert!(same(out2[0][i], 0.0) && same(out2[1][i], 0.0), "P: Sum without inputs writes silence to every output");
+    }
+
     // ------------------------------------------------------------------ signal node
     /// a signal node writes successive frames de-interleaved, one buffer length per call, min(CHANNELS, outputs) channels
     /// a FINITE ramp: frames n, n+1, .. up to `end`, then exhausted and equilibrium forever
